@@ -454,7 +454,7 @@ var (
 // addService registers a new service with the specified lifetime and options.
 // It performs validation, creates descriptors, handles multi-return constructors,
 // and manages interface registrations when using the As option.
-func (r *collection) addService(service any, lifetime Lifetime, opts ...AddOption) error {
+func (r *collection) addService(service any, lifetime Lifetime, opts ...AddOption) (err error) {
 	// Validate inputs
 	if service == nil {
 		return &ValidationError{
@@ -492,6 +492,15 @@ func (r *collection) addService(service any, lifetime Lifetime, opts ...AddOptio
 
 	r.mu.Lock()
 	defer r.mu.Unlock()
+
+	// One call may register several descriptors (result object, multiple returns,
+	// aliases): a rejected call must leave the collection exactly as it was.
+	mark := len(r.allDescriptors)
+	defer func() {
+		if err != nil {
+			r.rollbackTo(mark)
+		}
+	}()
 
 	// Parse options to handle special registration cases
 	options := &addOptions{}
@@ -706,6 +715,31 @@ func (r *collection) registerDescriptor(descriptor *Descriptor) error {
 	r.allDescriptors = append(r.allDescriptors, descriptor)
 
 	return nil
+}
+
+// rollbackTo undoes the registrations made after allDescriptors had length mark.
+func (r *collection) rollbackTo(mark int) {
+	for i := len(r.allDescriptors) - 1; i >= mark; i-- {
+		d := r.allDescriptors[i]
+
+		groupKey := GroupKey{Type: d.Type, Group: d.Group}
+		if members := r.groups[groupKey]; len(members) > 0 && members[len(members)-1] == d {
+			if len(members) == 1 {
+				delete(r.groups, groupKey)
+			} else {
+				r.groups[groupKey] = members[:len(members)-1]
+			}
+			continue
+		}
+
+		typeKey := TypeKey{Type: d.Type, Key: d.Key}
+		if r.services[typeKey] == d {
+			delete(r.services, typeKey)
+		}
+	}
+
+	clear(r.allDescriptors[mark:])
+	r.allDescriptors = r.allDescriptors[:mark]
 }
 
 // validateLifetimes ensures singleton and transient services don't depend on scoped services.
